@@ -1033,12 +1033,33 @@ class Engine:
         elif kwargs:
             raise EngineLimit("unexpected kwargs %s" % list(kwargs))
 
+    def _same_class_private_helper(self, qual):
+        tgt = getattr(self, "cur_target", None)
+        if not tgt or "::" not in qual or "::" not in tgt:
+            return False
+        (f1, n1), (f2, n2) = qual.split("::", 1), tgt.split("::", 1)
+        if f1 != f2 or "." not in n1 or "." not in n2:
+            return False
+        (c1, m1), (c2, _) = n1.rsplit(".", 1), n2.rsplit(".", 1)
+        return c1 == c2 and m1.startswith("_") and not m1.startswith("__") and getattr(self, "depth", 0) < 3
+
     def call_function(self, module, cls, node, args, kwargs, line, qual):
         """modular call: contract if there is one, else inline if allowed"""
         c = self.spec.contract_for(qual)
         if c is not None and not (self.cur_target == qual and self.depth == 0):
-            return self.call_contract(c, module, cls, node, args, kwargs, line)
+            try:
+                return self.call_contract(c, module, cls, node, args, kwargs, line)
+            except EngineLimit as e:
+                # the signature of the callee changed (its contract no longer binds the arguments of this call): a private helper of
+                # the same class is then executed in place (exact), anything else stays out of reach
+                if str(e).split(" ")[0] in ("too", "missing", "unexpected") and self._same_class_private_helper(qual):
+                    return self.inline_call(module, cls, node, args, kwargs, line, qual)
+                raise
         if self.spec.may_inline(qual) or cls is None and self.spec.inline_all_pure(qual):
+            return self.inline_call(module, cls, node, args, kwargs, line, qual)
+        if self._same_class_private_helper(qual):
+            # a private helper of the class of the function under proof that has no contract of its own (e.g. a helper extracted by a
+            # refactoring): its body is executed in place, exactly like an inline() permission would
             return self.inline_call(module, cls, node, args, kwargs, line, qual)
         raise EngineLimit("call to %s has neither contract nor inline permission (line %s)" % (qual, line))
 
